@@ -105,6 +105,43 @@ CHECKS = {
         "trusts the relation model (vcheck/model/c20_relation.py); known_findings.json lists "
         "insert-chars (the repository's own tests assert the buggy value, so it cannot be repaired)",
         "DESIGN.md 4/C20"),
+    "C02": (
+        "bounded enumeration of boundary first/continuation lines and name characters + Hypothesis "
+        "documents, each read through 7 input forms x {plain, clearsigned} x {comments or not}; "
+        "oracle: dump -> parse equals the generated fields (metamorphic agreement of all forms)",
+        "generated-input search with a round-trip oracle and a metamorphic relation across input "
+        "forms, armor and comment interleaving; a search, not a proof",
+        "value alphabet = printable text + TAB; armor wraps individual paragraphs, no signature is "
+        "verified; free-standing comment blocks are not fed to the Dsc/Changes readers",
+        "DESIGN.md 4/C02"),
+    "C08": (
+        "bounded-exhaustive enumeration of all values of <=4 tokens over 12 boundary tokens + "
+        "Hypothesis token sequences assigned to first/middle/last/new keys; oracle: independent "
+        "statement of the rejection rule, accepted => one paragraph with the same field names "
+        "through 6 input forms and both whitespace settings, rejected => state unchanged",
+        "generated-input search with a validity predicate over the re-read dump and an independent "
+        "rejection rule; the small-value space is enumerated completely; a search, not a proof",
+        "characters Python treats as blanks/line boundaries but the format does not define are "
+        "outside the domain; acceptance is demanded only for values inside C02's value domain",
+        "DESIGN.md 4/C08"),
+    "C16": (
+        "bounded-exhaustive enumeration of small pattern lists x names + Hypothesis pattern lists "
+        "(create/assign/parse routes, near-miss names, re-assignment) and multi-paragraph "
+        "documents; oracle: independent glob matcher written without re, last match wins",
+        "generated-input search, differential against an independent matcher (two implementations "
+        "cross-checked on every evaluation); a search, not a proof",
+        "trusts vcheck/model/c16_glob.py; patterns are non-empty and blank-free (the setter "
+        "rejects others); an illegal paragraph in a document may raise or match nothing",
+        "DESIGN.md 4/C16"),
+    "C17": (
+        "Hypothesis copyright documents (header, Files and License paragraphs in generated order, "
+        "multi-line texts with empty/indented/dot-led lines) + codec-level line lists; oracle: dump "
+        "-> strict parse equals what was built, dump idempotent, ' .' codec inverse",
+        "generated-input search with round-trip oracles at document and codec level; a search, not "
+        "a proof",
+        "texts are compared as joined text (a trailing newline / [''] vs [] are the same text); "
+        "paragraph order follows the add_*_paragraph docstrings",
+        "DESIGN.md 4/C17"),
 }
 
 NOT_YET = "check not built yet in this round (planned; see DESIGN.md section 4)"
